@@ -284,7 +284,12 @@ def confirm(prop, v):
             if res.get(n0 + 12 + j) != res.get(n0 + 19 + j): bad.append('id after clear %s vs fresh %s' % (res.get(n0 + 12 + j), res.get(n0 + 19 + j)))
         d1, d2 = dump_at(n0 + 17), dump_at(n0 + 24)
         if not (d1 and d2 and replay.same_state(d1, d2)): bad.append('continuation after clear differs from fresh arena')
+        # with_capacity(n) for small and large n
+        for n_ in (0, 1, 5, 4096, 4097, 100000):
+            lines += ['arena_with_capacity %d' % n_, 'capacity_ge %d' % n_, 'count']
+        res = replay.run_script(lines, profile)
         for k_ in range(nprobe, len(lines)):
+            if lines[k_] == 'count' and lines[k_ - 2].startswith('arena_with_capacity') and res.get(k_, ('', ''))[1].strip() != '0': bad.append('count after %s: %s' % (lines[k_ - 2], res.get(k_)))
             if lines[k_].startswith('capacity_ge') and res.get(k_, ('', ''))[1].strip() != 'true': bad.append('%s after %s: %s' % (lines[k_], lines[k_ - 1], res.get(k_)))
         detail[profile] = {'pre_ok': ok, 'bad': bad[:8]}
         detail.setdefault('script', lines)
